@@ -3,6 +3,7 @@ package main
 // Frame inference: which heap arrays / ghost cells a function (or loop body) may write.
 
 import (
+	"fmt"
 	"go/token"
 	"go/types"
 	"sort"
@@ -12,8 +13,9 @@ import (
 )
 
 const (
-	modFresh = 1 // writes only objects allocated by the callee itself
-	modAny   = 2
+	modFresh  = 1 // writes only objects allocated by the callee itself
+	modPFresh = 2 // closure: writes only objects allocated by itself or by its lexical parent (fresh for the parent's callers)
+	modAny    = 3
 )
 
 type ModSet struct {
@@ -33,9 +35,16 @@ func (m *ModSet) addHeap(k string, kind int) {
 	}
 }
 
-func (m *ModSet) union(o *ModSet, demoteFresh bool) bool {
+func (m *ModSet) union(o *ModSet, fromOwnClosure bool) bool {
 	changed := false
 	for k, v := range o.heaps {
+		if v == modPFresh {
+			if fromOwnClosure {
+				v = modFresh
+			} else {
+				v = modAny
+			}
+		}
 		if m.heaps[k] < v {
 			m.heaps[k] = v
 			changed = true
@@ -62,6 +71,8 @@ func (m *ModSet) keys() []string {
 	for k, v := range m.heaps {
 		if v == modFresh {
 			ks = append(ks, k+"(fresh)")
+		} else if v == modPFresh {
+			ks = append(ks, k+"(parent-fresh)")
 		} else {
 			ks = append(ks, k)
 		}
@@ -88,10 +99,53 @@ func isRepoFn(fn *ssa.Function) bool {
 	return strings.HasPrefix(p.Pkg.Path(), "github.com/yandex/mysync")
 }
 
-// freshValues: SSA values known to denote objects allocated in this function.
-func freshValues(fn *ssa.Function, esc map[*ssa.Alloc]bool, e *Engine) map[ssa.Value]bool {
-	fr := map[ssa.Value]bool{}
+// freshValues: SSA values known to denote objects allocated in this function (level modFresh) or, for a
+// closure, in its lexical parent before the closure was created (level modPFresh).
+func freshValues(fn *ssa.Function, esc map[*ssa.Alloc]bool, e *Engine) map[ssa.Value]int {
+	fr := map[ssa.Value]int{}
 	freshCell := map[*ssa.Alloc]bool{}
+	// free variables bound to parent cells that only ever hold parent-allocated objects
+	pfreshFV := map[*ssa.FreeVar]bool{}
+	if par := fn.Parent(); par != nil {
+		pesc := escapeAnalysis(par)
+		pfr := e.freshOf(par, pesc)
+		for _, b := range par.Blocks {
+			for _, ins := range b.Instrs {
+				mc, ok := ins.(*ssa.MakeClosure)
+				if !ok || mc.Fn != fn {
+					continue
+				}
+				for i, bnd := range mc.Bindings {
+					a, ok := bnd.(*ssa.Alloc)
+					if !ok || i >= len(fn.FreeVars) {
+						continue
+					}
+					all, any := true, false
+					for _, r := range *a.Referrers() {
+						if s, ok := r.(*ssa.Store); ok && s.Addr == a {
+							any = true
+							if pfr[s.Val] == 0 {
+								all = false
+							}
+						}
+					}
+					if all && any {
+						pfreshFV[fn.FreeVars[i]] = true
+					}
+				}
+			}
+		}
+		// a closure (this one or a sibling) that assigns the captured variable itself disables the rule
+		for fv := range pfreshFV {
+			if refs := fv.Referrers(); refs != nil {
+				for _, r := range *refs {
+					if s, ok := r.(*ssa.Store); ok && s.Addr == fv {
+						delete(pfreshFV, fv)
+					}
+				}
+			}
+		}
+	}
 	for iter := 0; iter < 4; iter++ {
 		changed := false
 		for _, b := range fn.Blocks {
@@ -100,36 +154,41 @@ func freshValues(fn *ssa.Function, esc map[*ssa.Alloc]bool, e *Engine) map[ssa.V
 				if !ok {
 					continue
 				}
-				if fr[v] {
+				if fr[v] != 0 {
 					continue
 				}
-				isF := false
+				lvl := 0
 				switch x := ins.(type) {
 				case *ssa.Alloc:
-					isF = esc[x]
+					if esc[x] {
+						lvl = modFresh
+					}
 				case *ssa.MakeMap, *ssa.MakeSlice, *ssa.MakeChan:
-					isF = true
+					lvl = modFresh
 				case *ssa.UnOp:
 					if x.Op == token.MUL {
 						if a, ok := x.X.(*ssa.Alloc); ok && freshCell[a] {
-							isF = true
+							lvl = modFresh
+						}
+						if fv, ok := x.X.(*ssa.FreeVar); ok && pfreshFV[fv] {
+							lvl = modPFresh
 						}
 					}
 				case *ssa.ChangeType:
-					isF = fr[x.X]
+					lvl = fr[x.X]
 				case *ssa.Call:
 					if callee := x.Call.StaticCallee(); callee != nil {
 						if c := e.db.Contracts[shortName(callee)]; c != nil && c.Flags["fresh"] {
-							isF = true
+							lvl = modFresh
 						}
 					}
 				case *ssa.FieldAddr:
-					isF = fr[x.X]
+					lvl = fr[x.X]
 				case *ssa.IndexAddr:
-					isF = fr[x.X]
+					lvl = fr[x.X]
 				}
-				if isF {
-					fr[v] = true
+				if lvl != 0 {
+					fr[v] = lvl
 					changed = true
 				}
 			}
@@ -138,14 +197,42 @@ func freshValues(fn *ssa.Function, esc map[*ssa.Alloc]bool, e *Engine) map[ssa.V
 		for _, b := range fn.Blocks {
 			for _, ins := range b.Instrs {
 				a, ok := ins.(*ssa.Alloc)
-				if !ok || esc[a] || freshCell[a] {
+				if !ok || freshCell[a] {
 					continue
 				}
 				all, any := true, false
 				for _, r := range *a.Referrers() {
-					if s, ok := r.(*ssa.Store); ok && s.Addr == a {
-						any = true
-						if !fr[s.Val] {
+					switch x := r.(type) {
+					case *ssa.Store:
+						if x.Addr == a {
+							any = true
+							if fr[x.Val] != modFresh {
+								all = false
+							}
+						} else {
+							all = false // address stored somewhere
+						}
+					case *ssa.UnOp, *ssa.DebugRef:
+					case *ssa.MakeClosure:
+						// captured: fine as long as no closure assigns the variable itself
+						cf := x.Fn.(*ssa.Function)
+						for i, bnd := range x.Bindings {
+							if bnd != a || i >= len(cf.FreeVars) {
+								continue
+							}
+							if refs := cf.FreeVars[i].Referrers(); refs != nil {
+								for _, r2 := range *refs {
+									if s2, ok := r2.(*ssa.Store); ok && s2.Addr == cf.FreeVars[i] {
+										all = false
+									}
+									if _, ok := r2.(*ssa.MakeClosure); ok {
+										all = false // re-captured by a nested closure: give up
+									}
+								}
+							}
+						}
+					default:
+						if esc[a] {
 							all = false
 						}
 					}
@@ -205,6 +292,12 @@ func heapKeysOfStore(addr ssa.Value) []string {
 	if et == nil {
 		return nil
 	}
+	if bk := staticBoxKey(root); bk != "" {
+		if _, ok := heapSorts[bk]; !ok {
+			heapSorts[bk] = arraySort(sortInt, sortOf(et))
+		}
+		return []string{bk}
+	}
 	if isStruct(et) {
 		if len(chain) >= 2 {
 			if fa, ok := chain[len(chain)-2].(*ssa.FieldAddr); ok {
@@ -256,8 +349,8 @@ func (e *Engine) instrMods(fn *ssa.Function, ins ssa.Instruction, ms *ModSet, ce
 			return
 		}
 		kind := modAny
-		if fr[root] {
-			kind = modFresh
+		if fr[root] != 0 {
+			kind = fr[root]
 		}
 		for _, k := range heapKeysOfStore(x.Addr) {
 			ms.addHeap(k, kind)
@@ -265,8 +358,8 @@ func (e *Engine) instrMods(fn *ssa.Function, ins ssa.Instruction, ms *ModSet, ce
 	case *ssa.MapUpdate:
 		mt := x.Map.Type().Underlying().(*types.Map)
 		kind := modAny
-		if fr[x.Map] {
-			kind = modFresh
+		if fr[x.Map] != 0 {
+			kind = fr[x.Map]
 		}
 		ms.addHeap(mapHeapKey(mt), kind)
 	case *ssa.Alloc:
@@ -280,6 +373,11 @@ func (e *Engine) instrMods(fn *ssa.Function, ins ssa.Instruction, ms *ModSet, ce
 				for i := 0; i < u.NumFields(); i++ {
 					ms.addHeap(fieldHeapKey(et, i), modFresh)
 				}
+			} else if bk := staticBoxKey(x); bk != "" {
+				if _, ok := heapSorts[bk]; !ok {
+					heapSorts[bk] = arraySort(sortInt, sortOf(et))
+				}
+				ms.addHeap(bk, modFresh)
 			} else {
 				ms.addHeap(plainHeapKey(et), modFresh)
 			}
@@ -295,7 +393,7 @@ func (e *Engine) instrMods(fn *ssa.Function, ins ssa.Instruction, ms *ModSet, ce
 	}
 }
 
-func (e *Engine) freshOf(fn *ssa.Function, esc map[*ssa.Alloc]bool) map[ssa.Value]bool {
+func (e *Engine) freshOf(fn *ssa.Function, esc map[*ssa.Alloc]bool) map[ssa.Value]int {
 	if m, ok := e.freshCache[fn]; ok {
 		return m
 	}
@@ -304,7 +402,7 @@ func (e *Engine) freshOf(fn *ssa.Function, esc map[*ssa.Alloc]bool) map[ssa.Valu
 	return m
 }
 
-func (e *Engine) callMods(fn *ssa.Function, call *ssa.CallCommon, ms *ModSet, fr map[ssa.Value]bool) {
+func (e *Engine) callMods(fn *ssa.Function, call *ssa.CallCommon, ms *ModSet, fr map[ssa.Value]int) {
 	if call.IsInvoke() {
 		name := invokeName(call)
 		if c := e.db.Contracts[name]; c != nil {
@@ -331,7 +429,8 @@ func (e *Engine) callMods(fn *ssa.Function, call *ssa.CallCommon, ms *ModSet, fr
 	case *ssa.Function:
 		ms.union(e.calleeMods(callee), false)
 	case *ssa.MakeClosure:
-		ms.union(e.calleeMods(callee.Fn.(*ssa.Function)), false)
+		cf := callee.Fn.(*ssa.Function)
+		ms.union(e.calleeMods(cf), cf.Parent() == fn)
 	default:
 		// function value: closures passed as parameters
 		ms.notes["indirect call through a function value (effects of the callee not tracked)"] = true
@@ -339,13 +438,13 @@ func (e *Engine) callMods(fn *ssa.Function, call *ssa.CallCommon, ms *ModSet, fr
 	// closures passed as arguments may be invoked by the callee
 	for _, a := range call.Args {
 		for _, cfn := range closureCandidates(a) {
-			ms.union(e.calleeMods(cfn), false)
+			ms.union(e.calleeMods(cfn), cfn.Parent() == fn)
 		}
 	}
 	// a function value called directly: closures stored in a local
 	if _, isFn := call.Value.(*ssa.Function); !isFn && !call.IsInvoke() {
 		for _, cfn := range closureCandidates(call.Value) {
-			ms.union(e.calleeMods(cfn), false)
+			ms.union(e.calleeMods(cfn), cfn.Parent() == fn)
 		}
 	}
 }
@@ -624,3 +723,69 @@ func closureCands(v ssa.Value, seen map[ssa.Value]bool) []*ssa.Function {
 	}
 	return nil
 }
+
+// staticBoxKey: a non-struct local captured only by closures lives in its own heap (no aliasing with other
+// pointers of the same type is possible: its address never flows anywhere else).
+func staticBoxKey(v ssa.Value) string {
+	switch x := v.(type) {
+	case *ssa.Alloc:
+		et := derefType(x.Type())
+		if et == nil || isStruct(et) {
+			return ""
+		}
+		refs := x.Referrers()
+		if refs == nil {
+			return ""
+		}
+		captured := false
+		for _, r := range *refs {
+			switch y := r.(type) {
+			case *ssa.Store:
+				if y.Val == x {
+					return ""
+				}
+			case *ssa.UnOp, *ssa.DebugRef:
+			case *ssa.MakeClosure:
+				captured = true
+			default:
+				return ""
+			}
+		}
+		if !captured {
+			return ""
+		}
+		idx := 0
+		for _, b := range x.Parent().Blocks {
+			for _, ins := range b.Instrs {
+				if a, ok := ins.(*ssa.Alloc); ok {
+					if a == x {
+						return "H$box$" + sanitize(shortName(x.Parent())) + "$" + sanitize(x.Comment) + "$" + itoa(idx)
+					}
+					idx++
+				}
+			}
+		}
+	case *ssa.FreeVar:
+		fn := x.Parent()
+		par := fn.Parent()
+		if par == nil {
+			return ""
+		}
+		pos := -1
+		for i, fv := range fn.FreeVars {
+			if fv == x {
+				pos = i
+			}
+		}
+		for _, b := range par.Blocks {
+			for _, ins := range b.Instrs {
+				if mc, ok := ins.(*ssa.MakeClosure); ok && mc.Fn == fn && pos >= 0 && pos < len(mc.Bindings) {
+					return staticBoxKey(mc.Bindings[pos])
+				}
+			}
+		}
+	}
+	return ""
+}
+
+func itoa(i int) string { return fmt.Sprintf("%d", i) }
